@@ -616,6 +616,12 @@ class PenlogReader:
         return prio
 
     def seek_to_record(self, n: int) -> None:
+        if n < 0:
+            # Negative indices count from the end. The current index is kept
+            # non-negative, so that walking backwards ends at the first record.
+            n += len(self)
+            if n < 0:
+                raise IndexError("record index out of range")
         self.file_mmap.seek(self._lookup_offset(n))
         self._current_record_index = n
 
@@ -633,25 +639,34 @@ class PenlogReader:
     def records(
         self,
         priority: PenlogPriority = PenlogPriority.TRACE,
-        offset: int = 0,
+        offset: int | None = None,
         reverse: bool = False,
     ) -> Iterator[PenlogRecord]:
-        self.seek_to_record(offset)
+        """Yields the records whose priority is at least ``priority``.
+
+        :param offset: Index of the first record to read; negative values
+                       count from the end. Defaults to the first record,
+                       or to the last record if ``reverse`` is set.
+        :param reverse: Read backwards, down to the first record.
+        """
         if reverse is False:
+            self.seek_to_record(offset if offset is not None else 0)
             while True:
                 if self.readline() == b"":
                     break
                 if self.current_priority <= priority:
                     yield self.current_record
         else:
+            if len(self) == 0:
+                return
+            self.seek_to_record(offset if offset is not None else -1)
             while True:
                 self.readline()
                 if self.current_priority <= priority:
                     yield self.current_record
-                try:
-                    self.seek_to_previous_record()
-                except IndexError:
+                if self._current_record_index == 0:
                     break
+                self.seek_to_previous_record()
 
     def readline(self) -> bytes:
         self._current_record = None
